@@ -138,7 +138,11 @@ def extend_contract(I, st, tag='extend'):
                 I.assume(z3.Implies(ho[AM.PLURAL[k]].length == 0, z3.And(nf.length == of.length, z3.ForAll([pj], z3.Implies(z3.And(pj >= 0, pj < of.length),
                          z3.And(*[z3.Select(cn, pj) == z3.Select(co, pj) for cn, co in zip(nf.cols, of.cols)])), patterns=[z3.Select(nf.cols[0], pj)]))))
         hs.update(new)
-        st.setdefault('extend_calls', []).append(dict(N=N, mA=mA, memV=memV, keys=keys, vals=vals, unmapped=A))
+        info = dict(N=N, mA=mA, memV=memV, keys=keys, vals=vals, unmapped=A)
+        st.setdefault('extend_calls', []).append(info)
+        cb2 = st.get('after_extend')          # ghost code of the caller's proof (e.g. recording which pattern atom each appended row came from)
+        if cb2 is not None:
+            cb2(ctx, hs, ho, info)
         return None
     return model
 
